@@ -280,7 +280,7 @@ func checkC08(c *core.Ctx) error {
 	mkRun := func(id string, evs []map[string]interface{}, obs map[string]interface{}) *RunOut {
 		compress(evs)
 		var lines [][]byte
-		lines = append(lines, marshal(map[string]interface{}{"ev": "RunStart", "id": id, "ident": false, "calls": []CallSpec{}, "assertExit": false, "autoname": false, "dedup": false}))
+		lines = append(lines, runStartLine(&Scenario{ID: id}))
 		for _, e := range evs {
 			lines = append(lines, marshal(e))
 		}
